@@ -344,6 +344,15 @@ func (r *runner) fails(c Case, kind string) bool {
 
 func (r *runner) shrink(c Case, kind string) Case {
 	budget := 400
+	size := 0
+	for _, o := range c.Ops {
+		for _, b := range o.Bytes {
+			size += len(b)
+		}
+	}
+	if size > 1<<20 { // every attempt re-runs the whole case: keep it short for MiB-sized cases
+		budget = 40
+	}
 	try := func(cand Case) bool {
 		if budget <= 0 {
 			return false
